@@ -19,6 +19,19 @@ STRENGTHENED = {
     "C09-1": "new adversary operator EvalEdge: correctly signed blocks whose expressions apply every operator to the ends of every value domain, as literals and as values bound from facts; error-prone expressions in the legitimate history",
     "C11-1": "new clause: the evaluated authorizer saved under one hash order and restored under another is the same authorizer; the virtual clock's rate now varies per hash key (a clock that never advanced made a restored snapshot re-evaluate, which hid the loss)",
     "C15-2": "the OS-randomness uniqueness probe now also covers build(), Biscuit::append_third_party and UnverifiedBiscuit::append_third_party",
+    "C03-b1": "no new clause: the existing 'facts not owned by the new block are unchanged' clause fires once the workload of this round (rules repeated by another party, chained rules, per-run sizes that vary) makes a rule of an earlier block with a key scope derive from the wrongly filed block within the quick tier",
+    "C03-b2": "evaluation routes: every check that evaluates an authorizer now does so directly and through the snapshot routes (saved before evaluation, saved after run(), builder saved before build); C03 compares the original with the extended token on two routes",
+    "C05-b1": "generator: predicate names used with two arities in one world (right/1 and right/2, ...)",
+    "C05-b2": "generator: rules without any body atom (fire once whatever the facts), owned by scopes that may see no fact",
+    "C07-b1": "new C07 clause: what a verifier derives from a token holding third-party blocks equals R2 on the authors' own ASTs, with probe queries `q(..) <- p(..) trusting <key>` for every signer key of the scenario and every predicate of the third-party blocks",
+    "C07-b2": "the same clause on every evaluation route (snapshot before / after evaluation, builder snapshot)",
+    "C09-b1": "new adversary operators: a check or policy query whose head names an unbound variable, with a matching fact - in signed blocks, in snapshots and in serialized policies (structured mutation of the policies message)",
+    "C09-b2": "new adversary operators: checks and policies without any query, in signed blocks, snapshots and serialized policies",
+    "C10-b1": "new durability clause: the work time a saved authorizer reports (execution_time()) is what the snapshot records (decoded by R3); clocks that need seconds per unit of work",
+    "C11-b1": "generator: .matches() with literal and computed patterns (R2 got a matcher for the generated subset), several authorizers evaluated on one thread",
+    "C11-b2": "C11 verifiers with small fact budgets, plus a product query whose answer is larger than the fact store",
+    "C12-b1": "new C12 clause: the verifier's view of the token (decision, failed checks, queries, facts with origins) equals R2 evaluated on the authors' own ASTs - block-level `trusting <key>` of a third-party block included",
+    "C19-b2": "new operation FromForeign: tokens minted by another party through the Rust API (text holding a NUL, third-party block, 70 kB strings, 3.3 values) loaded with biscuit_from and then printed, inspected, authorized, with the failed-check accessors read",
 }
 
 def needs_section(text):
